@@ -265,6 +265,6 @@ for _p in ("C13", "C14"):
     CHECKS[_p]["parts"].append(dict(name="prepare", pkg="internal/plugin", test="TestVerifPrepareNetns", shards={"quick": 1, "thorough": 1}, wrap=NETNS, min_evals=0,
                                     env={"VERIF_PROP": _p}, timeout_s={"quick": 240, "thorough": 600}))
 
-for _p, _n in (("C08", 6), ("C20", 6), ("C04", 1), ("C17", 1), ("C09", 1), ("C13", 1), ("C14", 1), ("C15", 1), ("C16", 1), ("C05", 1), ("C06", 1), ("C07", 2)):
+for _p, _n in (("C08", 6), ("C20", 6), ("C04", 1), ("C17", 1), ("C09", 1), ("C13", 1), ("C14", 1), ("C15", 1), ("C16", 1), ("C05", 1), ("C06", 1), ("C07", 2), ("C12", 1), ("C18", 1)):
     CHECKS[_p]["parts"].append(daemon_part(_p, _n))
     CHECKS[_p]["assumptions"] = list(CHECKS[_p].get("assumptions", [])) + ["tier R: the real daemon (this test binary re-executed as corerad) in `unshare -n` with a veth pair, observed from a probe socket on the peer; only order/count/value oracles; a namespace that cannot be created is inconclusive"]
